@@ -12,5 +12,11 @@ for f in sorted(glob.glob('evidence/*.json')):
     except Exception as e:
         ok = False
         print('INVALID', f, str(e)[:300])
+import os
+for f in sorted(glob.glob('lean/ZepidVerif/Gen/*.lean')):
+    pri = os.path.join('lean/pristine/Gen', os.path.basename(f))
+    if not os.path.exists(pri) or open(pri).read() != open(f).read():
+        ok = False
+        print('STALE pristine copy of', f, '(run harness/py2lean.py --save-pristine on the unchanged /repo and commit)')
 print('manifest valid; evidence files', 'valid' if ok else 'INVALID')
 sys.exit(0 if ok else 1)
